@@ -612,20 +612,22 @@ pub fn edge_driver(out: &str, seed: u64, n: u64) {
                     extra.push(json!({"op":"fund","user":"U2","mint":format!("M.K{}", i),"amount":"4000000000000"}));
                     extra.push(json!({"op":"fund","user":"U1","mint":format!("M.K{}", i),"amount":"4000000000000"}));
                 }
-                plain_bank("DB", 6, "spl", "1", json!({"ir":{"orig_fee":"0"}}), &mut extra);
-                extra.push(json!({"op":"fund","user":"U9","mint":"M.DB","amount":"4000000000000"}));
+                // (the debt bank's name - and with it its key, above or below the collateral banks' keys - varies)
+                let db = format!("DB{}", k / 14);
+                plain_bank(&db, 6, "spl", "1", json!({"ir":{"orig_fee":"0"}}), &mut extra);
+                extra.push(json!({"op":"fund","user":"U9","mint":format!("M.{}", db),"amount":"4000000000000"}));
                 r.begin(&extra);
                 let nhold = *pick(&mut rng, &[2usize, 3, 4, 4, 5]);
                 let asset = rng.gen_range(1..=nhold);
                 let ab = format!("K{}", asset);
-                r.act(json!({"op":"deposit","acct":"LP","bank":"DB","amount":"1000000000000"}));
+                r.act(json!({"op":"deposit","acct":"LP","bank":db,"amount":"1000000000000"}));
                 r.act(json!({"op":"deposit","acct":"A1","bank":ab,"amount":1_000_000_000u64}));
-                r.act(json!({"op":"borrow","acct":"A1","bank":"DB","amount":600_000_000u64}));
+                r.act(json!({"op":"borrow","acct":"A1","bank":db,"amount":600_000_000u64}));
                 for i in 1..=nhold {
                     r.act(json!({"op":"deposit","acct":"A2","bank":format!("K{}", i),"amount":5_000_000_000u64}));
                 }
                 r.act(json!({"op":"set_fixed_price","bank":ab,"price":"1/2"}));
-                let l = json!({"op":"liquidate","liquidator":"A2","liquidatee":"A1","asset_bank":ab,"liab_bank":"DB","amount": *pick(&mut rng, &[1000u64, 50_000_000])});
+                let l = json!({"op":"liquidate","liquidator":"A2","liquidatee":"A1","asset_bank":ab,"liab_bank":db,"amount": *pick(&mut rng, &[1000u64, 50_000_000])});
                 let ev = r.act(l.clone());
                 if ev["res"] != "ok" {
                     // the liquidator's list after the liquidation has nhold + 1 banks; name each of them twice in turn
